@@ -146,6 +146,8 @@ def _cfg():
 
 FACTORIES = {
     "mlp": lambda: _MLP(2, 2, [3, 2], min_mlp_nodes=1, max_mlp_nodes=8, min_hidden_layers=1, max_hidden_layers=3),
+    "mlp-newgelu": lambda: _MLP(2, 2, [3, 2], activation="GELU", new_gelu=True, min_mlp_nodes=1, max_mlp_nodes=8, min_hidden_layers=1, max_hidden_layers=3),
+    "mlp-layernorm-off": lambda: _MLP(2, 2, [3, 2], layer_norm=False, output_activation="Tanh", min_mlp_nodes=1, max_mlp_nodes=8, min_hidden_layers=1, max_hidden_layers=3),
     "cnn": lambda: _CNN([1, 6, 6], 2, [2, 3], [2, 2], [1, 1], min_channel_size=1, max_channel_size=6, min_hidden_layers=1, max_hidden_layers=3),
     "stochastic-actor-box": lambda: _SActor(_spaces.Box(-1, 1, (2,)), _spaces.Box(-1, 1, (2,)), **_cfg()),
     "stochastic-actor-discrete": lambda: _SActor(_spaces.Box(-1, 1, (2,)), _spaces.Discrete(2), **_cfg()),
@@ -153,6 +155,11 @@ FACTORIES = {
     "value": lambda: _VNet(_spaces.Box(-1, 1, (2,)), **_cfg()),
     "deterministic-actor": lambda: _DActor(_spaces.Box(-1, 1, (2,)), _spaces.Box(-1, 1, (2,)), **_cfg()),
 }
+
+
+def _leaf_kinds(mod):
+    """name -> class name of every leaf layer (activations, normalisations, linear / conv layers)"""
+    return {n: type(x).__name__ for n, x in mod.named_modules() if n and not list(x.children())}
 
 
 def _owner(mod, dotted):
@@ -194,6 +201,7 @@ class RecreateReal(Case):
             setattr(o, attr, torch.nn.Parameter(sym if v.mode != "real" else sym.clone()))
             old[name] = np.array(content(dict(m.named_parameters())[name].data), dtype=object, copy=True)
         _T.SHADOW.clear()
+        kinds0 = _leaf_kinds(m)
         # `real_param.data = symbolic_tensor` is performed natively by torch (no dispatch): intercept the property on
         # nn.Parameter so that the symbolic content lands in the shadow store instead of rebinding storage
         _get, _set = torch.Tensor.data.__get__, torch.Tensor.data.__set__
@@ -211,6 +219,11 @@ class RecreateReal(Case):
         res = []
         new = dict(m.named_parameters())
         res.append(Ob("parameters-that-exist-before-and-after", len(set(new) & set(old)) > 0))
+        # "the same function" also needs the same parameter-free layers: an activation / normalisation layer that exists
+        # under the same name before and after the rebuild is of the same kind
+        kinds1 = _leaf_kinds(m)
+        changed = sorted(k for k in set(kinds0) & set(kinds1) if kinds0[k] != kinds1[k])
+        res.append(Ob("layers-that-exist-before-and-after-keep-their-kind-(activation,-normalisation)", not changed, site=self.site + "/layer-kinds"))
         for name in sorted(new):
             if name not in old:
                 continue
@@ -243,6 +256,7 @@ _REAL_CASES = [
     ("stochastic-actor-discrete", "add_latent_node", {"numb_new_nodes": 1}), ("qnetwork", "add_latent_node", {"numb_new_nodes": 1}),
     ("qnetwork", "encoder.add_node", {"hidden_layer": 0, "numb_new_nodes": 1}), ("value", "remove_latent_node", {"numb_new_nodes": 1}),
     ("deterministic-actor", "head_net.add_node", {"hidden_layer": 0, "numb_new_nodes": 1}),
+    ("mlp-newgelu", "add_node", {"hidden_layer": 0, "numb_new_nodes": 1}), ("mlp-layernorm-off", "remove_node", {"hidden_layer": 0, "numb_new_nodes": 1}),
 ]
 _orig_cases = cases
 
@@ -250,6 +264,10 @@ _orig_cases = cases
 def cases(tier):   # noqa: F811
     cs = _orig_cases(tier)
     cs += [RecreateReal(*c) for c in _REAL_CASES]
+    # multi-input networks: a latent mutation rebuilds the nested extractors from their CURRENT architecture, so what they have
+    # learned since an earlier nested mutation can be carried over at all (C03's harness)
+    from .c03_arch import MultiInputMutation
+    cs += [MultiInputMutation("add_latent_node", False, True), MultiInputMutation("remove_latent_node", True, True)]
     if tier == "thorough":
         cs += [RecreateReal("cnn", "remove_layer", {}), RecreateReal("cnn", "add_layer", {}), RecreateReal("value", "head_net.remove_node", {"hidden_layer": 0, "numb_new_nodes": 1}),
                RecreateReal("deterministic-actor", "add_latent_node", {"numb_new_nodes": 2})]
